@@ -120,8 +120,13 @@ func c11Dec(r *rng, id string) {
 func tok(b []byte) string { return fmt.Sprintf("%d.%d", len(b), digest(b)) }
 
 func c11Pkt(r *rng, id string) {
-	c := ccfg{udp: []int{512, 1400, 1400, 2000, 9000}[r.intn(5)], label: labelOf([]int{0, 0, 1, 7, 255}[r.intn(5)]),
+	c := ccfg{udp: []int{512, 1400, 1400, 2000, 9000, 508, 1404, 1413}[r.intn(8)], label: labelOf([]int{0, 0, 1, 7, 255}[r.intn(5)]),
 		compress: r.chance(1, 4), verifyIn: true, verifyOut: true, proto: 2}
+	// the stages of a rolling encryption enablement: a keyring with outgoing and incoming verification
+	// switched independently
+	if r.chance(1, 3) {
+		c.verifyIn, c.verifyOut = r.chance(1, 2), r.chance(1, 2)
+	}
 	enc := "n"
 	switch r.intn(3) {
 	case 1:
@@ -137,6 +142,7 @@ func c11Pkt(r *rng, id string) {
 	defer snd.m.Shutdown()
 	rc := c
 	rc.name = "R"
+	rc.verifyIn = c.verifyOut // the receiver accepts what this sender produces
 	rcv, err := newCnode(rc)
 	if err != nil {
 		emit("C11 pkt id=%s err=create", id)
@@ -243,8 +249,8 @@ func c11Pkt(r *rng, id string) {
 		}
 		return strings.Join(x, ",")
 	}
-	emit("C11 pkt id=%s udp=%d label=%d enc=%s comp=%d crc=%d op=%s prim=%d lens=%s wire=%s picked=%s got=%s panic=%d",
-		id, c.udp, len(c.label), enc, b2i(c.compress), b2i(crc), op, prim, j(lens), j(wire), j(pickedToks), j(gotToks), b2i(panicked || rpanic))
+	emit("C11 pkt id=%s udp=%d label=%d enc=%s vin=%d vout=%d comp=%d crc=%d op=%s prim=%d lens=%s wire=%s picked=%s got=%s panic=%d",
+		id, c.udp, len(c.label), enc, b2i(c.verifyIn), b2i(c.verifyOut), b2i(c.compress), b2i(crc), op, prim, j(lens), j(wire), j(pickedToks), j(gotToks), b2i(panicked || rpanic))
 }
 
 type finB struct {
